@@ -34,7 +34,7 @@ func udpServed(c *Ctx, kinds []string) {
 		}
 		port := pc.LocalAddr().(*net.UDPAddr).Port
 		pc.Close()
-		fe, err := udpfe.NewFrontend(lg, udpfe.Config{Addr: fmt.Sprintf("127.0.0.1:%d", port), PrivateKey: udpKey, MaxClockSkew: 10 * time.Second})
+		fe, err := udpfe.NewFrontend(lg, udpfe.Config{Addr: fmt.Sprintf("127.0.0.1:%d", port), PrivateKey: udpKey, MaxClockSkew: 10 * time.Second, EnableRequestTiming: true})
 		if err != nil {
 			return "new-failed"
 		}
